@@ -124,8 +124,20 @@ def real_get(cfg, path):
         return ('exc', type(e).__name__)
 
 
+_pristine = {}
+
+
+def pristine(variant):
+    """Default configuration as first seen by this process tree (taken before any edit is made)."""
+    if variant not in _pristine:
+        import emd.sift as S
+        _pristine[variant] = plain(S.get_config(variant))
+    return _pristine[variant]
+
+
 def fresh(variant):
     import emd.sift as S
+    pristine(variant)
     cfg = S.get_config(variant)
     model = {}
     for k in cfg:
@@ -197,6 +209,15 @@ def transition(root, hist):
         if a != b:
             viols.append(('keypath:get', '%s: cfg[%r] -> %r, nested indexing -> %r' % (d, p, a, b)))
             break
+    # editing one configuration object must not leak into the defaults handed out afterwards
+    try:
+        again = plain(S.get_config(variant))
+        if again != pristine(variant):
+            diff = [k for k in again if again[k] != pristine(variant).get(k)]
+            viols.append(('defaults-polluted', '%s: a fresh get_config(%r) now differs from the defaults in %r' % (d, variant, diff)))
+            _pristine.pop(variant, None)
+    except Exception as e:
+        viols.append(('defaults-polluted:raise', '%s: get_config raised %r' % (d, e)))
     key = canon(model)
     changed = key != before
     ntrans = 1
@@ -277,6 +298,8 @@ def check_case(case):
 
 def run(ctx):
     b = bounds(ctx.tier)
+    for v in VARIANTS:
+        pristine(v)
     rep = Report()
     # defaults
     from ..engine import explore
